@@ -127,7 +127,142 @@ func waitUntil(cond func() bool, max time.Duration) bool {
 	return true
 }
 
+// c10sweep: ALL sequences of up to 5 sequential calls starting with call `first` of an
+// 8-call alphabet on a fresh PubSub whose subscriptions are buffered (16, never full):
+// SubBuf, Unsub(oldest live), Unsub(newest live), Unsub(a removed channel) [must fail],
+// UnsubAll, PubSync, PubSliceSync(2 events), PubWait. Sequential and without
+// receivers, so the outcome is determined: each channel holds exactly the events
+// published while it was subscribed, in order, and is closed iff it was removed.
+func c10sweep(c *core.Ctx, first int) {
+	const nOps = 8
+	names := []string{"SubBuf(16)", "Unsub(oldest)", "Unsub(newest)", "Unsub(removed)", "UnsubAll", "PubSync", "PubSliceSync(2)", "PubWait"}
+	seqs := 0
+	type sub struct {
+		ch     <-chan int
+		want   []int
+		closed bool
+	}
+	for L := 1; L <= 5; L++ {
+		total := 1
+		for i := 1; i < L; i++ {
+			total *= nOps
+		}
+		for code := 0; code < total; code++ {
+			ps := &chans.PubSub[int]{}
+			var subs []*sub
+			var hist []string
+			ev := 0
+			fail := func(sig, msg string) {
+				c.Violate("sweep:"+sig, fmt.Sprintf("%s [exhaustive sequential sweep on a fresh PubSub, calls %v]", msg, hist), map[string]any{"history": hist})
+			}
+			live := func() []*sub {
+				var out []*sub
+				for _, s := range subs {
+					if !s.closed {
+						out = append(out, s)
+					}
+				}
+				return out
+			}
+			pub := func(evs ...int) {
+				for _, s := range live() {
+					s.want = append(s.want, evs...)
+				}
+			}
+			for x, k := code, 0; k < L; k++ {
+				op := first
+				if k > 0 {
+					op = x % nOps
+					x /= nOps
+				}
+				hist = append(hist, names[op])
+				lv := live()
+				switch op {
+				case 0:
+					subs = append(subs, &sub{ch: ps.SubBuf(16)})
+				case 1, 2:
+					if len(lv) == 0 {
+						continue
+					}
+					t := lv[0]
+					if op == 2 {
+						t = lv[len(lv)-1]
+					}
+					if err := ps.Unsub(t.ch); err != nil {
+						fail("Unsub:error", fmt.Sprintf("Unsub of a live subscription returned %v", err))
+						return
+					}
+					t.closed = true
+				case 3:
+					var t *sub
+					for _, s := range subs {
+						if s.closed {
+							t = s
+						}
+					}
+					if t == nil {
+						continue
+					}
+					if err := ps.Unsub(t.ch); err != chans.ErrAlreadyUnsubscribed {
+						fail("Unsub:error-contract", fmt.Sprintf("Unsub of an already removed channel returned %v", err))
+						return
+					}
+				case 4:
+					if err := ps.UnsubAll(); err != nil {
+						fail("UnsubAll:error", fmt.Sprint(err))
+						return
+					}
+					for _, s := range lv {
+						s.closed = true
+					}
+				case 5:
+					ev++
+					ps.PubSync(ev)
+					pub(ev)
+				case 6:
+					ev += 2
+					ps.PubSliceSync([]int{ev - 1, ev})
+					pub(ev-1, ev)
+				case 7:
+					ev++
+					ps.PubWait(ev)
+					pub(ev)
+				}
+			}
+			for i, s := range subs {
+				var got []int
+				closed := false
+			drain:
+				for {
+					select {
+					case v, ok := <-s.ch:
+						if !ok {
+							closed = true
+							break drain
+						}
+						got = append(got, v)
+					default:
+						break drain
+					}
+				}
+				if !eqSlice(got, s.want) || closed != s.closed {
+					fail("contents", fmt.Sprintf("subscription %d holds %v (closed=%v); it was subscribed while %v were published (removed=%v)", i, got, closed, s.want, s.closed))
+					return
+				}
+			}
+			seqs++
+		}
+	}
+	c.Count("exhaustive_sweep_sequences", int64(seqs))
+	c.Count("exhaustive_sweeps_completed", 1)
+	c.NonTrivial(core.Mix(10, uint64(first), 0x5eeb))
+}
+
 func runC10(c *core.Ctx) {
+	if c.Mode == "stable" && c.Build == "plain" && c.Index < 8 {
+		c10sweep(c, int(c.Index))
+		return
+	}
 	switch c.Mode {
 	case "stable":
 		if c.Index%8 == 7 {
@@ -154,6 +289,13 @@ func c10stable(c *core.Ctx) {
 	var timeout time.Duration
 	if timeoutOn {
 		timeout = time.Duration(r.Range(200, 2000)) * time.Microsecond
+		if r.Chance(1, 6) {
+			// positive but tiny (1 ns .. 199 us): still a timeout, never "no limit"
+			timeout = time.Duration(r.Range(1, 199000)) * time.Nanosecond
+			if r.Bool() {
+				timeout = time.Duration(r.Range(1, 999)) * time.Nanosecond
+			}
+		}
 		run.ps.PubTimeoutAfter = timeout
 		run.ps.OnPubTimeout = func(ev int) {
 			st := run.clk.Add(1)
@@ -168,6 +310,29 @@ func c10stable(c *core.Ctx) {
 	}
 	if r.Chance(1, 3) {
 		run.ps.DefaultBuffer = r.Range(1, 3)
+	}
+	// in 1 scenario of 10 the PubSub has a past: 300 subscriptions that came and went
+	// one after the other (counters and tables that only grow, or wrap, start here)
+	if r.Chance(1, 10) {
+		for i := 0; i < 300; i++ {
+			ch := run.ps.SubBuf(1)
+			if i%50 == 0 {
+				run.ps.PubSync(-900 - i)
+				if v, ok := <-ch; !ok || v != -900-i {
+					c.Violate("Sub:storm", fmt.Sprintf("subscription %d of a storm of Sub/Unsub pairs received (%d,%v) for the event published to it", i+1, v, ok), nil)
+					return
+				}
+			}
+			if err := run.ps.Unsub(ch); err != nil {
+				c.Violate("Unsub:error", fmt.Sprintf("Unsub of subscription %d of a storm of Sub/Unsub pairs returned %v", i+1, err), nil)
+				return
+			}
+			if _, ok := <-ch; ok {
+				c.Violate("Unsub:channel-not-closed", fmt.Sprintf("the channel of subscription %d of a storm of Sub/Unsub pairs was not closed by its Unsub", i+1), nil)
+				return
+			}
+		}
+		c.Count("stable_with_sub_unsub_storm_before", 1)
 	}
 	nsub := r.Range(0, 4)
 	if r.Chance(1, 12) {
